@@ -4,6 +4,7 @@ import (
 	"fmt"
 	"sort"
 	"strings"
+	"sync"
 )
 
 // Sort is an SMT-LIB sort written out.
@@ -32,6 +33,10 @@ type Term struct {
 	S    string
 	Sort Sort
 }
+
+// conjTable remembers the conjuncts of conjunctions built by And, so that assume() can split them.
+var conjTable = map[string][]Term{}
+var conjMu sync.Mutex
 
 func (t Term) String() string { return t.S }
 
@@ -81,7 +86,11 @@ func And(ts ...Term) Term {
 	if len(xs) == 1 {
 		return xs[0]
 	}
-	return app(SBool, "and", xs...)
+	t := app(SBool, "and", xs...)
+	conjMu.Lock()
+	conjTable[t.S] = xs
+	conjMu.Unlock()
+	return t
 }
 
 func Or(ts ...Term) Term {
@@ -296,4 +305,20 @@ func sortedKeys[V any](m map[string]V) []string {
 	}
 	sort.Strings(ks)
 	return ks
+}
+
+// TextQF is Text without the quantified axioms (for the quantifier-free relaxation).
+func (d *Decls) TextQF() string {
+	var b strings.Builder
+	for _, l := range d.order {
+		b.WriteString(l)
+		b.WriteByte('\n')
+	}
+	for _, a := range d.axioms {
+		if strings.Contains(a, "(forall ") || strings.Contains(a, "(exists ") {
+			continue
+		}
+		fmt.Fprintf(&b, "(assert %s)\n", a)
+	}
+	return b.String()
 }
